@@ -344,7 +344,9 @@ class Comm:
         if n != self.size:
             raise MPIMismatch('Create_cart dims %s do not multiply to communicator size %d' % (dims, self.size))
         self.world.trace[self.world_rank].append(('Create_cart', self.cid, None, None, tuple(dims)))
-        return Comm(self.world, self.cid + ('cart', tuple(dims)), self.cs.members, self.rank, dims=dims)
+        # every call creates a new communicator (as MPI_Cart_create does); all members call it in the same order
+        self.ncart = getattr(self, 'ncart', 0) + 1
+        return Comm(self.world, self.cid + ('cart%d' % self.ncart, tuple(dims)), self.cs.members, self.rank, dims=dims)
 
     def Get_coords(self, rank):
         c = []
